@@ -57,10 +57,10 @@
    those circuits back (PrefixMode = "script": the circuits of the JSON file IOEnv.QP_SCRIPTS, every set-iteration
    order, <<"QPS", ...>> printed for every outcome), and replays them into the real pass under several values of the
    process-wide Bin.id counter (which decides the iteration order there).
-   * exhaustive search for widths the plain configurations cannot reach: CONSTRAINT DirectedTrans prunes every prefix
-     from which "trans" cannot be reached within MaxOps operations (necessary conditions: a bin can only get a
-     transitive part from a selected bin that already has blocked qudits, and the transitive part can only decide a
-     test of a bin that has one) -- all circuits of <= MaxOps operations in which the transitive part decides are kept;
+   * exhaustive search for widths the plain configurations cannot reach: CONSTRAINT Directed prunes every prefix
+     from which Target ("trans" / "indirect") cannot be reached within MaxOps operations (necessary conditions: a bin
+     can only get a transitive part from a selected bin that already has blocked qudits, and the transitive part can
+     only decide a test of a bin that has one) -- all circuits of <= MaxOps operations in which it decides are kept;
    * `-simulate` with MinFinal = MaxOps: random circuits of exactly MaxOps operations, one iteration order each. *)
 EXTENDS PartitionRules, TLC, Json, IOUtils
 
@@ -77,7 +77,8 @@ CONSTANTS NQ,            \* number of qudits
                          \* divisible by m (a deterministic sample; they are replayed into the real pass)
           MinFinal,      \* Finalize only circuits of at least MinFinal operations (1: every prefix)
           EmitMechs,     \* print <<"QPM", ...>> for a finalised circuit in which one of these mechanisms made a difference
-          Slack          \* used by the constraint DirectedTrans only: MaxOps - 3
+          Slack,         \* directed search (CONSTRAINT Directed): MaxOps - 3; otherwise >= MaxOps (off)
+          Target         \* directed search: the mechanism looked for, "trans" or "indirect"
 
 VARIABLES phase, bs, circ, bins, ab, pend, dl, nc, part, asserts, res,
           mech,          \* history: mechanisms that made a difference so far
@@ -85,7 +86,7 @@ VARIABLES phase, bs, circ, bins, ab, pend, dl, nc, part, asserts, res,
 vars == <<phase, bs, circ, bins, ab, pend, dl, nc, part, asserts, res, mech, sid>>
 
 \* every mechanism name, in the order they are printed
-Mechs == <<"trans", "indirect", "barblock", "blocked", "blocked-active", "wide-bin", "reentry", "holder",
+Mechs == <<"trans", "indirect", "barblock", "blocked", "blocked-active", "wide-bin", "reentry",
            "multi-adm", "multi-overlap", "barrier-partial", "merge-sub", "merge-super", "midflush">>
 MechSeq(S) == SelectSeq(Mechs, LAMBDA m : m \in S)
 
@@ -195,7 +196,7 @@ BlockAgainst(B, abx, skip, QS, sb) ==
 
 \* mechanisms that make a difference when a gate on L meets the overlapping bins (tests on the bins as they are
 \* before anything is closed, as in the code)
-MechGate(L, adm, holders) ==
+MechGate(L, adm) ==
   LET O == Overlapping(L)
       T(b, X) == CanAcc(bins[b], L, X)
       If(c, m) == IF c THEN {m} ELSE {}
@@ -208,8 +209,8 @@ MechGate(L, adm, holders) ==
      \cup If(\E b \in O : T(b, bins[b].blkd) /\ (L \cap bins[b].blkd \cap bins[b].act) # {}, "blocked-active")
      \cup If(\E b \in O : T(b, bins[b].blkd) /\ Cardinality(Range(bins[b].qs) \cup L) > bs, "wide-bin")
      \cup If(\E b \in O : ~ActiveOK(bins[b], L) /\ BlockedOK(bins[b], L, bins[b].blkd) /\ SizeOK(bins[b], L), "reentry")
-     \* selection: a later admissible bin is preferred because it holds every qudit; several admissible; several overlapping
-     \cup If(holders # {} /\ 1 \notin holders, "holder")
+     \* selection: several admissible bins; several overlapping ones.  (The code's preference for an admissible bin that
+     \* already holds every qudit never matters: such a bin is the only overlapping one; checked with the asserts, AssertsHold.)
      \cup If(Len(adm) >= 2, "multi-adm")
      \cup If(Cardinality(O) >= 2, "multi-overlap")
 
@@ -230,10 +231,33 @@ BarrierResult(L, o, i, ord) ==
       mech |-> (IF \E b \in Overlapping(L) : ~(bins[b].act \subseteq L) THEN {"barrier-partial"} ELSE {})
                \cup (IF Cardinality(Overlapping(L)) >= 2 THEN {"multi-overlap"} ELSE {})]
 
+\* Directed search (CONSTRAINT Directed, Target = "trans" or "indirect", Slack = MaxOps - 3; Slack >= MaxOps switches it
+\* off).  Stages of a state:  3: the targeted part of the bookkeeping has decided a test;  2: some active bin's blocked set
+\* differs from its shadow;  1: some active bin has blocked qudits at all.  One operation raises the stage by at most
+\* one, so a state at stage s after n operations cannot reach stage 3 within MaxOps operations unless s + Slack >= n:
+\* the constraint drops it.  DirOK is the same pruning applied before a successor is computed: when the state after this
+\* operation has to be at stage k, the operation must be able to get it there.
+Shadow(bn) == IF Target = "trans" THEN bn.bD ELSE bn.bQ
+TargetDecides(L) == \E b \in Overlapping(L) : CanAcc(bins[b], L, bins[b].blkd) # CanAcc(bins[b], L, Shadow(bins[b]))
+ActiveBins == {ab[q] : q \in Q} \ {0}
+StageT == IF Target \in mech THEN 3
+          ELSE IF \E b \in ActiveBins : bins[b].blkd # Shadow(bins[b]) THEN 2
+          ELSE IF \E b \in ActiveBins : bins[b].blkd # {} THEN 1 ELSE 0
+NeedStage(k) == Len(circ) + 1 - Slack >= k          \* the state after this operation has to be at stage >= k
+StageNow == IF NeedStage(1) THEN StageT ELSE 0       \* only looked at when the search is directed
+DirOK(L, gate, st) ==                                \* st = StageNow (computed once per state, not once per L)
+  /\ NeedStage(3) => st >= 3 \/ (gate /\ TargetDecides(L))
+  \* "trans": a new transitive part comes from a selected (so: overlapping and admissible) bin that has blocked qudits;
+  \* "indirect": from a bin that has blocked qudits (stage 1, which the constraint already demands of this state)
+  /\ NeedStage(2) => st >= 2 \/ (gate /\ (Target = "trans" =>
+                                          \E b \in Overlapping(L) : bins[b].blkd # {} /\ CanAccommodate(bins[b], L)))
+  \* a bin gets its first blocked qudits from an operation that touches one of its qudits
+  /\ NeedStage(1) => st >= 1 \/ \E b \in ActiveBins : (Range(bins[b].qs) \cap L) # {}
+
 StepBarrier ==
   /\ phase = "scan" /\ Len(circ) < MaxOps
-  /\ \E L \in BarrierLocs :
-       /\ PrefixOK(TRUE, L) /\ InOrder(NewOp(TRUE, L))
+  /\ \E st \in {StageNow} : \E L \in BarrierLocs :
+       /\ DirOK(L, FALSE, st) /\ PrefixOK(TRUE, L) /\ InOrder(NewOp(TRUE, L))
        /\ \E ord \in PermSeqs(Overlapping(L)) :
             \E R \in {BarrierResult(L, NewOp(TRUE, L), Len(circ) + 1, ord)} :
                /\ bins' = R.bins /\ pend' = R.pend /\ ab' = R.ab /\ nc' = R.nc
@@ -252,18 +276,19 @@ GateResult(L, o, i, ord) ==
              ELSE IF holders # {} THEN adm[MinS(holders)] ELSE adm[1]
       S2 == IF adm = <<>> THEN [S1 EXCEPT !.bins = Append(@, EmptyBin)]
             ELSE CloseSeq(S1, SelectSeq(adm, LAMBDA b : b # sel), L, P, FALSE)
-      \* the two `assert`s of the main loop
+      \* the two `assert`s of the main loop (and, in the result below, the remark on `holders` made in MechGate)
       okA == /\ (adm = <<>> => \A q \in L : S1.ab[q] = 0)
              /\ \A q \in L : S2.ab[q] \in {0, sel}
       B3 == [S2.bins EXCEPT ![sel] = AddToBin(@, i, o.loc, P)]
       ab3 == TLCEval([q \in Q |-> IF q \in L THEN sel ELSE S2.ab[q]])
       B4 == BlockAgainst(B3, ab3, sel, Range(B3[sel].qs), B3[sel])
-  IN [bins |-> B4, ab |-> ab3, pend |-> S2.pend, nc |-> S2.nc, ok |-> okA, mech |-> MechGate(L, adm, holders)]
+  IN [bins |-> B4, ab |-> ab3, pend |-> S2.pend, nc |-> S2.nc, ok |-> okA /\ (holders # {} => 1 \in holders),
+      mech |-> MechGate(L, adm)]
 
 GateStep(wantNew) ==
   /\ phase = "scan" /\ Len(circ) < MaxOps
-  /\ \E L \in GateLocs :
-       /\ PrefixOK(FALSE, L) /\ InOrder(NewOp(FALSE, L))
+  /\ \E st \in {StageNow} : \E L \in GateLocs :
+       /\ DirOK(L, TRUE, st) /\ PrefixOK(FALSE, L) /\ InOrder(NewOp(FALSE, L))
        /\ (\A b \in Overlapping(L) : ~CanAccommodate(bins[b], L)) = wantNew
        /\ \E ord \in PermSeqs(Overlapping(L)) :
             \E R \in {GateResult(L, NewOp(FALSE, L), Len(circ) + 1, ord)} :
@@ -278,6 +303,9 @@ StepGateNewBin == /\ phase = "scan"
                   /\ GateStep(TRUE)
 StepGateJoinBin == /\ phase = "scan"
                    /\ GateStep(FALSE)
+\* both at once (the split above only serves the per-action coverage numbers)
+StepGate == /\ phase = "scan"
+            /\ (GateStep(TRUE) \/ GateStep(FALSE))
 
 -----------------------------------------------------------------------------
 \* process_pending_bins, on a flush state F = [bins, pend, dl, part]
@@ -398,12 +426,6 @@ Shape ==
 \* An invariant of the repaired algorithm (BarrierFix = TRUE); for the code as it is the verdicts are printed.
 ResOK == res \in {"none", "accepted"}
 
-\* State constraint of the directed search for "trans" (sound pruning: see the head of the module).
-\*   stage 3: the transitive part has decided a test;  stage 2: some active bin has a transitive part;
-\*   stage 1: some active bin has blocked qudits at all.  One more operation raises the stage by at most one.
-ActiveBins == {ab[q] : q \in Q} \ {0}
-StageT == IF "trans" \in mech THEN 3
-          ELSE IF \E b \in ActiveBins : bins[b].blkd # bins[b].bD THEN 2
-          ELSE IF \E b \in ActiveBins : bins[b].blkd # {} THEN 1 ELSE 0
-DirectedTrans == phase = "done" \/ StageT + Slack >= Len(circ)
+\* State constraint of the directed search (sound pruning: see DirOK)
+Directed == phase = "done" \/ StageT + Slack >= Len(circ)
 =============================================================================
